@@ -7,14 +7,6 @@ import Qvnt.Generated.Canon
 namespace Qvnt.GenCanon
 open Qvnt.Generated
 
-theorem int_new_canon : canon_int_new = true := by decide
-theorem int_add_ast_canon : canon_int_add_ast = true := by decide
-theorem int_ast_changes_canon : canon_int_ast_changes = true := by decide
-theorem int_process_nodes_canon : canon_int_process_nodes = true := by decide
-theorem int_process_node_canon : canon_int_process_node = true := by decide
-theorem int_process_apply_gate_canon : canon_int_process_apply_gate = true := by decide
-theorem int_process_gate_canon : canon_int_process_gate = true := by decide
-theorem int_process_if_canon : canon_int_process_if = true := by decide
 theorem int_struct_canon : canon_int_struct = true := by decide
 theorem macro_struct_canon : canon_macro_struct = true := by decide
 theorem macro_argument_name_canon : canon_macro_argument_name = true := by decide
